@@ -243,6 +243,9 @@ def _fmt(r):
     return "[%s, %s]" % tuple("?" if x is None else str(float(x)) for x in r)
 
 
+NOT_EVALUATED = "<not evaluated>"  # the value graph of a field did not reduce to a constant at a grid point
+
+
 def check_json_scores(ctx, led, v, rule="C09.agree.json"):
     """as_json: each *Score key is float of the attribute of the same slot and each *Severity key is
     the upper-snake-case rating of the same slot."""
@@ -295,7 +298,7 @@ def check_json_scores(ctx, led, v, rule="C09.agree.json"):
         table = {}
         for q in GRID:
             r = eval_with(om, st2, x, {i: q})
-            table[q] = r.v if isinstance(r, Const) else None
+            table[q] = r.v if isinstance(r, Const) else NOT_EVALUATED
         out[vk] = table
     # the same pairing must hold when optional groups are left out (minimal=True): whichever of
     # the score / severity keys is emitted depends on its own slot's symbol only
